@@ -76,6 +76,25 @@ func performsMutation(r *Run) map[*ssa.Function]string {
 	return out
 }
 
+type tocState struct {
+	Obs bool
+	Key ssa.Value
+}
+
+// tocKeyValue: the SSA value standing for a key variable, if it is one that is defined by an instruction of the
+// function (a loop variable: phi, extract of a range step, load); parameters and constants never change.
+func tocKeyValue(v ssa.Value) ssa.Value {
+	v = core.StripConv(v)
+	if mi, ok := v.(*ssa.MakeInterface); ok {
+		v = core.StripConv(mi.X)
+	}
+	switch v.(type) {
+	case *ssa.Phi, *ssa.Extract, *ssa.UnOp, *ssa.Lookup, *ssa.Index, *ssa.Field:
+		return v
+	}
+	return nil
+}
+
 // toctouCheck reports, for each function in fns, every unconditional mutator of the underlying map that can
 // execute after an earlier observation of the map in the same call (for closures handed to Range: after the
 // snapshot they receive). One obligation per function.
@@ -109,20 +128,32 @@ func toctouCheck(r *Run, rep *core.Report, rule string, fns []*ssa.Function) int
 			continue
 		}
 		n++
-		m := &core.Machine[bool]{P: r.P, Fn: f, Spec: core.Spec{}, Init: snapshot[f]}
+		// state: an observation was made, and of which key (an SSA value of f; nil = unknown / several). An observation
+		// of a key variable that is then assigned anew (the next iteration of a loop over keys: DeleteMulti, GetMulti)
+		// says nothing about the new key: it is dropped when the variable's defining instruction executes again.
+		m := &core.Machine[tocState]{P: r.P, Fn: f, Spec: core.Spec{}, Init: tocState{Obs: snapshot[f]}}
 		type hit struct {
 			in  ssa.Instruction
 			msg string
-			at  core.Node[bool]
+			at  core.Node[tocState]
 		}
 		var hits []hit
-		m.Step = func(ctx *core.Ctx[bool], s bool, in ssa.Instruction) []bool {
+		observe := func(s tocState, key ssa.Value) tocState {
+			if s.Obs && s.Key != key {
+				key = nil
+			}
+			return tocState{Obs: true, Key: key}
+		}
+		m.Step = func(ctx *core.Ctx[tocState], s tocState, in ssa.Instruction) []tocState {
+			if v, isV := in.(ssa.Value); isV && s.Obs && s.Key != nil && v == s.Key {
+				s = tocState{}
+			}
 			c, ok := in.(ssa.CallInstruction)
 			if !ok {
-				return []bool{s}
+				return []tocState{s}
 			}
 			if meth, mm, ok := r.M.ItemsInvoke(c); ok {
-				if unconditionalMutator[meth] && s {
+				if unconditionalMutator[meth] && s.Obs {
 					what := "an earlier map operation of this call"
 					if snapshot[f] {
 						what = "the Range snapshot this visitor received"
@@ -130,19 +161,28 @@ func toctouCheck(r *Run, rep *core.Report, rule string, fns []*ssa.Function) int
 					hits = append(hits, hit{in, fmt.Sprintf("%s.%s is issued after %s: the entry may have been replaced in between (check-then-act), so a fresh value can be overwritten or removed", mm.Name, meth, what), ctx.Node})
 				}
 				if observingOp[meth] {
-					s = true
+					var key ssa.Value
+					if args := c.Common().Args; len(args) > 0 && c.Common().IsInvoke() {
+						key = tocKeyValue(args[0])
+					}
+					s = observe(s, key)
 				}
-				return []bool{s}
+				return []tocState{s}
 			}
 			if cal := core.Callee(c); cal != nil {
-				if what := mut[cal]; what != "" && s && cal != f {
+				if what := mut[cal]; what != "" && s.Obs && cal != f {
 					hits = append(hits, hit{in, fmt.Sprintf("%s, which issues the unconditional mutation %s, is called after an earlier map observation of this call: the entry may have been replaced in between (check-then-act), so a fresh value can be overwritten or removed", fn(cal), what), ctx.Node})
 				}
 				if obs[cal] {
-					s = true
+					// the key is the callee's first parameter after the receiver when that is what it hands to the map
+					var key ssa.Value
+					if args := c.Common().Args; len(args) > 1 && cal.Signature.Recv() != nil {
+						key = tocKeyValue(args[1])
+					}
+					s = observe(s, key)
 				}
 			}
-			return []bool{s}
+			return []tocState{s}
 		}
 		m.Run()
 		if len(hits) == 0 {
